@@ -65,6 +65,7 @@ type StepResult struct {
 	Key        string
 	Enabled    []Event
 	Effects    int // effect ops of the node under test during the last event
+	StoreOps   []int // indices of those effect ops that were durable store writes
 	Violations []Violation
 	Outcome    string // coarse oracle outcome label (vacuity guard)
 	Internal   string // non-empty: internal error (never a violation)
@@ -97,6 +98,9 @@ type Bounds struct {
 	MaxStates int           // cap (0 = none)
 	Budget    time.Duration // wall-clock cap (0 = none); hitting it ends with exhaustive=false
 	NoCrash   bool
+	// CrashAfterStore restricts crash points to those immediately after a durable store
+	// write (the node dies before the effect op that follows the write).
+	CrashAfterStore bool
 }
 
 type Report struct {
@@ -255,6 +259,9 @@ func BFS(name string, runB BatchRunner, b Bounds) *Report {
 					addV(res.Violations, j.h)
 					if !crashRound && !b.NoCrash && j.parent.dev+j.e.Dev+1 <= b.MaxDev {
 						for k := 0; k < res.Effects; k++ {
+							if b.CrashAfterStore && !containsInt(res.StoreOps, k-1) {
+								continue
+							}
 							ce := j.e
 							ce.Crash = k + 1
 							ce.Dev = j.e.Dev + 1
@@ -450,4 +457,13 @@ func diffKeys(a, b string) string {
 		hiB = len(b)
 	}
 	return fmt.Sprintf("first difference at byte %d:\n   was ...%s\n   now ...%s", i, a[lo:hiA], b[lo:hiB])
+}
+
+func containsInt(xs []int, v int) bool {
+	for _, x := range xs {
+		if x == v {
+			return true
+		}
+	}
+	return false
 }
